@@ -233,9 +233,10 @@ structure InvT (s : St) : Prop where
   dead : ∀ i, s.timers i = none → entsOf s.queue i = []
   dflt : ∃ k, (k, none) ∈ s.queue
   usedT : ∀ i t, s.timers i = some t → s.used i = true
+  pos : ∀ i t, s.timers i = some t → 0 < t.interval
 
 theorem invT_init : InvT init := by
-  refine ⟨?_, ?_, ?_, ⟨0, ?_⟩, ?_⟩ <;> simp [init, SortedQ, entsOf]
+  refine ⟨?_, ?_, ?_, ⟨0, ?_⟩, ?_, ?_⟩ <;> simp [init, SortedQ, entsOf]
 
 /-- a state change that does not touch the timer structures (and only marks more ids used) -/
 def SameT (s s' : St) : Prop :=
@@ -248,11 +249,12 @@ theorem SameT.trans {a b c : St} (h1 : SameT a b) (h2 : SameT b c) : SameT a c :
 
 theorem InvT.same {s s' : St} (h : InvT s) (hs : SameT s s') : InvT s' := by
   obtain ⟨q, t, u⟩ := hs
-  refine ⟨?_, ?_, ?_, ?_, ?_⟩
+  refine ⟨?_, ?_, ?_, ?_, ?_, ?_⟩
   · rw [q]; exact h.sorted
   · intro i ti hi; rw [q]; rw [t] at hi; exact h.live i ti hi
   · intro i hi; rw [q]; rw [t] at hi; exact h.dead i hi
   · rw [q]; exact h.dflt
   · intro i ti hi; rw [t] at hi; exact u i (h.usedT i ti hi)
+  · intro i ti hi; rw [t] at hi; exact h.pos i ti hi
 
 end Nstd.Server.C14
